@@ -80,10 +80,16 @@ Definition registered (s : state) (o : nat) : Prop := In o (rd s) \/ In o (wr s)
 
 (* API precondition P1: a role is added only when it is not registered already
    (every caller in circuits guards with isReading / isWriting) *)
+(* environment assumption for an iteration: poll/epoll report every number of the interest table at most once
+   (in any order) *)
+Definition order_ok (s : state) (order : list nat) : Prop :=
+  NoDup order /\ forall f, kreg s f <> None -> In f order.
+
 Definition pre (s : state) (x : op) : Prop :=
   match x with
   | AddR _ o => ~ In o (rd s)
   | AddW _ o => ~ In o (wr s)
+  | Tick _ order => order_ok s order
   | _ => True
   end.
 
@@ -501,7 +507,7 @@ Proof.
       assert (f' <> f) by (intro; subst; rewrite Hp in A; inversion A; subst; contradiction).
       rewrite !upd_other by assumption. split; assumption.
     + intros f' o' m H1 H2 H3. unfold upd in H1, H3. destruct (Nat.eqb_spec f' f); [discriminate|].
-      change (mask (forget s f) o') with (mask s o'). change (registered s o'). eapply Me; eassumption.
+      change (m = mask s o' /\ registered s o'). eapply Me; eassumption.
   - intros Hk' f' m H. simpl in H. unfold upd in H. destruct (Nat.eqb_spec f' f); [discriminate|].
     destruct (HE Hk' f' m H) as (o' & A & B). exists o'. simpl. rewrite upd_other by assumption. split; assumption.
 Qed.
@@ -551,4 +557,703 @@ Proof.
   - inversion H; subst. exact HI.
   - destruct (process k s fr) as [s1 e1] eqn:E1. destruct (processes k s1 t) as [s2 e2] eqn:E2.
     inversion H; subst. eapply IH; [exact Hk | eapply Inv_process; eassumption | exact E2].
+Qed.
+
+(* ------------------------------------------------------------------ Select's iteration *)
+Lemma WInv_preen : forall s, WInv s -> WInv (preen s).
+Proof.
+  intros s [Wi Wb Wr Wn1 Wn2 Wt]. split; simpl; try assumption.
+  - intros o [H|H]; apply filter_In in H; destruct H as [H _]; apply Wr; [left|right]; exact H.
+  - apply NoDup_filter. exact Wn1.
+  - apply NoDup_filter. exact Wn2.
+  - intros o Ht. destruct (closed s o) eqn:Ec; simpl in Ht.
+    + destruct (mem o (rd s) || mem o (wr s)) eqn:Em; [congruence|].
+      apply Wt in Ht. apply registered_mask in Ht. unfold mask in Ht. simpl in Ht. congruence.
+    + apply Wt in Ht. destruct Ht as [H|H]; [left|right]; simpl; apply filter_In; (split; [exact H | rewrite Ec; reflexivity]).
+Qed.
+
+Lemma Inv_tick : forall k s st order s' e, Inv k s -> tick k s st order = (s', e) -> Inv k s'.
+Proof.
+  intros k s st order s' e HI H. destruct k; simpl in H.
+  - unfold select_tick in H. destruct HI as (HW & _ & _).
+    destruct (existsb (closed s) (rd s) || existsb (closed s) (wr s)); inversion H; subst.
+    + split; [apply WInv_preen; exact HW | split; intros; congruence].
+    + split; [exact HW | split; intros; congruence].
+  - eapply Inv_processes; [discriminate | exact HI | exact H].
+  - eapply Inv_processes; [discriminate | exact HI | exact H].
+Qed.
+
+(* ------------------------------------------------------------------ every step preserves the invariant *)
+Lemma Inv_init : forall k, Inv k init.
+Proof.
+  intros k. split; [|split].
+  - split; simpl.
+    + intros o f; split; discriminate.
+    + intros; discriminate.
+    + intros o [[]|[]].
+    + constructor.
+    + constructor.
+    + intros o H. congruence.
+  - intros _. split; simpl; intros; discriminate.
+  - intros _ f m H. discriminate.
+Qed.
+
+Lemma lift_ok : forall o s e, lift o = Ok s e -> o = Some s /\ e = [].
+Proof. intros [x|] s e H; simpl in H; inversion H; auto. Qed.
+
+Lemma Inv_step : forall k s x s' e, Inv k s -> pre s x -> step k s x = Ok s' e -> Inv k s'.
+Proof.
+  intros k s x s' e HI Hpre H. destruct x.
+  - eapply Inv_open; eassumption.
+  - eapply Inv_close; eassumption.
+  - (* AddR *) simpl in H, Hpre. destruct (born s o) eqn:Eb; [|discriminate]. apply lift_ok in H. destruct H as [H _].
+    pose proof HI as ([_ _ _ N1 N2 _] & _).
+    eapply Inv_api; [exact HI | apply only_o_addR | | | (rewrite Eb; discriminate) | | exact H]; simpl.
+    + apply NoDup_app_one; assumption.
+    + exact N2.
+    + intros _. left. simpl. apply in_app_iff. right. left. reflexivity.
+  - (* AddW *) simpl in H, Hpre. destruct (born s o) eqn:Eb; [|discriminate]. apply lift_ok in H. destruct H as [H _].
+    pose proof HI as ([_ _ _ N1 N2 _] & _).
+    eapply Inv_api; [exact HI | apply only_o_addW | | | (rewrite Eb; discriminate) | | exact H]; simpl.
+    + exact N1.
+    + apply NoDup_app_one; assumption.
+    + intros _. right. simpl. apply in_app_iff. right. left. reflexivity.
+  - (* RemR *) simpl in H. destruct (born s o) eqn:Eb; [|discriminate]. apply lift_ok in H. destruct H as [H _].
+    pose proof HI as ([_ _ _ N1 N2 _] & _).
+    destruct (rd_drop_target (set_rd s (remove1 o (rd s))) o) as (H1 & H2 & _).
+    eapply Inv_api; [exact HI | apply only_o_remR | | | (rewrite Eb; discriminate) | | exact H]; unfold b_remR.
+    + rewrite H1. simpl. apply NoDup_remove1. exact N1.
+    + rewrite H2. simpl. exact N2.
+    + unfold registered. rewrite H1, H2. unfold drop_target.
+      destruct (mem o (rd (set_rd s (remove1 o (rd s)))) || mem o (wr (set_rd s (remove1 o (rd s))))) eqn:Em.
+      * intros _. apply orb_true_iff in Em. rewrite !mem_In in Em. exact Em.
+      * simpl. rewrite upd_same. congruence.
+  - (* RemW *) simpl in H. destruct (born s o) eqn:Eb; [|discriminate]. apply lift_ok in H. destruct H as [H _].
+    pose proof HI as ([_ _ _ N1 N2 _] & _).
+    destruct (rd_drop_target (set_wr s (remove1 o (wr s))) o) as (H1 & H2 & _).
+    eapply Inv_api; [exact HI | apply only_o_remW | | | (rewrite Eb; discriminate) | | exact H]; unfold b_remW.
+    + rewrite H1. simpl. exact N1.
+    + rewrite H2. simpl. apply NoDup_remove1. exact N2.
+    + unfold registered. rewrite H1, H2. unfold drop_target.
+      destruct (mem o (rd (set_wr s (remove1 o (wr s)))) || mem o (wr (set_wr s (remove1 o (wr s))))) eqn:Em.
+      * intros _. apply orb_true_iff in Em. rewrite !mem_In in Em. exact Em.
+      * simpl. rewrite upd_same. congruence.
+  - (* Discard *) simpl in H. destruct (born s o) eqn:Eb; [|discriminate]. apply lift_ok in H. destruct H as [H _].
+    pose proof HI as ([_ _ _ N1 N2 _] & _).
+    eapply Inv_api; [exact HI | apply only_o_discard | | | (rewrite Eb; discriminate) | | exact H]; simpl.
+    + apply NoDup_remove1. exact N1.
+    + apply NoDup_remove1. exact N2.
+    + rewrite upd_same. congruence.
+  - simpl in H. destruct (tick k s st order) as [s1 e1] eqn:Et. inversion H; subst. eapply Inv_tick; eassumption.
+Qed.
+
+Theorem reach_Inv : forall k s, reach k s -> Inv k s.
+Proof.
+  intros k s H. induction H as [|s x s' e _ IH Hp Hs]; [apply Inv_init | eapply Inv_step; eassumption].
+Qed.
+
+(* ================================================================== emission: Select *)
+Definition clean (s : state) : Prop := existsb (closed s) (rd s) || existsb (closed s) (wr s) = false.
+
+Lemma select_read : forall s st o c,
+  In (ERead o c) (snd (select_tick s st)) <->
+  clean s /\ In o (rd s) /\ (exists f, fds s o = Some f /\ sr (st f) = true) /\ c = target s o.
+Proof.
+  intros s st o c. unfold select_tick, clean.
+  destruct (existsb (closed s) (rd s) || existsb (closed s) (wr s)); simpl.
+  - split; [intros [] | intros [H _]; discriminate].
+  - rewrite in_app_iff, !in_map_iff. split.
+    + intros [(x & Hx & _)|(x & Hx & Hf)]; [discriminate|]. inversion Hx; subst. apply filter_In in Hf.
+      destruct Hf as [Hi Hr]. unfold sel_ready in Hr. destruct (fds s o) as [f|] eqn:Ef; [|discriminate].
+      repeat split; try assumption. exists f. split; [reflexivity | exact Hr].
+    + intros (_ & Hi & (f & Ef & Hr) & ->). right. exists o. split; [reflexivity|].
+      apply filter_In. split; [exact Hi|]. unfold sel_ready. rewrite Ef. exact Hr.
+Qed.
+
+Lemma select_write : forall s st o c,
+  In (EWrite o c) (snd (select_tick s st)) <->
+  clean s /\ In o (wr s) /\ (exists f, fds s o = Some f /\ sw (st f) = true) /\ c = target s o.
+Proof.
+  intros s st o c. unfold select_tick, clean.
+  destruct (existsb (closed s) (rd s) || existsb (closed s) (wr s)); simpl.
+  - split; [intros [] | intros [H _]; discriminate].
+  - rewrite in_app_iff, !in_map_iff. split.
+    + intros [(x & Hx & Hf)|(x & Hx & _)]; [|discriminate]. inversion Hx; subst. apply filter_In in Hf.
+      destruct Hf as [Hi Hr]. unfold sel_ready in Hr. destruct (fds s o) as [f|] eqn:Ef; [|discriminate].
+      repeat split; try assumption. exists f. split; [reflexivity | exact Hr].
+    + intros (_ & Hi & (f & Ef & Hr) & ->). left. exists o. split; [reflexivity|].
+      apply filter_In. split; [exact Hi|]. unfold sel_ready. rewrite Ef. exact Hr.
+Qed.
+
+Lemma select_no_disc : forall s st o c, ~ In (EDisc o c) (snd (select_tick s st)).
+Proof.
+  intros s st o c. unfold select_tick.
+  destruct (existsb (closed s) (rd s) || existsb (closed s) (wr s)); simpl; [intros []|].
+  rewrite in_app_iff, !in_map_iff. intros [(x & Hx & _)|(x & Hx & _)]; discriminate.
+Qed.
+
+(* an iteration that meets a closed descriptor reports nothing and leaves a clean poller *)
+Lemma select_preen_clean : forall s st, ~ clean s ->
+  snd (select_tick s st) = [] /\ clean (fst (select_tick s st)) /\
+  (forall o, closed s o = false -> (In o (rd (fst (select_tick s st))) <-> In o (rd s)) /\
+                                   (In o (wr (fst (select_tick s st))) <-> In o (wr s))).
+Proof.
+  intros s st Hn. unfold select_tick, clean in *.
+  destruct (existsb (closed s) (rd s) || existsb (closed s) (wr s)) eqn:E; [|congruence].
+  simpl. split; [reflexivity|]. split.
+  - apply orb_false_iff. split; apply not_true_is_false; intro H; apply existsb_exists in H;
+      destruct H as (x & Hx & Hc); apply filter_In in Hx; destruct Hx as [_ Hx];
+      unfold closed in *; simpl in Hc; destruct (fds s x); simpl in Hx; congruence.
+  - intros o Hc. split; rewrite filter_In, Hc; simpl; tauto.
+Qed.
+
+(* ================================================================== emission: Poll / EPoll *)
+Lemma scan1_spec : forall s st f x, In x (scan1 s st f) ->
+  fst x = f /\ exists mi mo, kreg s f = Some (mi, mo) /\
+  ((holder s f = None /\ r_nval (snd x) = true /\ r_in (snd x) = false /\ r_out (snd x) = false) \/
+   (holder s f <> None /\ snd x = {| r_in := mi && pin (st f); r_out := mo && pout (st f);
+                                     r_hup := phup (st f); r_err := perr (st f); r_nval := false |})).
+Proof.
+  intros s st f x H. unfold scan1 in H. destruct (kreg s f) as [[mi mo]|] eqn:Ek; [|destruct H].
+  destruct (holder s f) eqn:Eh.
+  - match type of H with In _ (if ?c then _ else _) => destruct c end; [|destruct H].
+    destruct H as [<-|[]]. simpl. split; [reflexivity|]. exists mi, mo. split; [reflexivity|]. right. split; [congruence | reflexivity].
+  - destruct H as [<-|[]]. simpl. split; [reflexivity|]. exists mi, mo. split; [reflexivity|]. left. auto.
+Qed.
+
+Lemma scan_in_order : forall s st order x, In x (scan s st order) -> In (fst x) order /\ In x (scan1 s st (fst x)).
+Proof.
+  intros s st order x H. unfold scan in H. apply in_flat_map in H. destruct H as (f & Hf & Hx).
+  destruct (scan1_spec _ _ _ _ Hx) as [E _]. rewrite E. split; assumption.
+Qed.
+
+Lemma scan_nodup : forall s st order, NoDup order -> NoDup (map fst (scan s st order)).
+Proof.
+  intros s st order. induction order as [|f t IH]; intros H; simpl; [constructor|].
+  inversion H as [|? ? Hn Ht]; subst. rewrite map_app.
+  assert (Hrest : forall g, In g (map fst (flat_map (scan1 s st) t)) -> In g t).
+  { intros g Hg. apply in_map_iff in Hg. destruct Hg as (x & <- & Hx). apply (scan_in_order s st t x). exact Hx. }
+  unfold scan1 at 1. destruct (kreg s f) as [[mi mo]|]; simpl; [|apply IH; exact Ht].
+  destruct (holder s f).
+  - match goal with |- NoDup (map fst (if ?c then _ else _) ++ _) => destruct c end; simpl; [|apply IH; exact Ht].
+    constructor; [intro Hi; apply Hn; apply Hrest; exact Hi | apply IH; exact Ht].
+  - simpl. constructor; [intro Hi; apply Hn; apply Hrest; exact Hi | apply IH; exact Ht].
+Qed.
+
+Lemma process_frame : forall k s f0 r0 s1 e1 f r, k <> KSelect -> Inv k s ->
+  process k s (f0, r0) = (s1, e1) -> f <> f0 -> snd (process k s1 (f, r)) = snd (process k s (f, r)).
+Proof.
+  intros k s f0 r0 s1 e1 f r Hk (HW & HM & _) H Hn. destruct (HM Hk) as [Mb _ _].
+  destruct (process_cases _ _ _ _ _ _ H) as [[-> _]|[(o0 & Hp & _ & -> & _)|(o0 & Hp & -> & _)]].
+  - reflexivity.
+  - unfold process. simpl. rewrite upd_other by assumption.
+    destruct (pmap s f) as [o|]; [|reflexivity].
+    repeat match goal with |- context[if ?c then _ else _] => destruct c end; reflexivity.
+  - unfold process. simpl. rewrite upd_other by assumption.
+    destruct (pmap s f) as [o|] eqn:Epf; [|reflexivity].
+    assert (o <> o0) by (intro; subst; apply Mb in Hp; apply Mb in Epf; congruence).
+    rewrite !mem_remove1_neq by assumption.
+    unfold target. simpl. rewrite upd_other by assumption.
+    repeat match goal with |- context[if ?c then _ else _] => destruct c end; reflexivity.
+Qed.
+
+Opaque process.
+Lemma processes_events : forall k l s x, k <> KSelect -> Inv k s -> NoDup (map fst l) ->
+  (In x (snd (processes k s l)) <-> exists fr, In fr l /\ In x (snd (process k s fr))).
+Proof.
+  induction l as [|[f0 r0] t IH]; intros s x Hk HI Hnd; simpl.
+  - split; [intros [] | intros (fr & [] & _)].
+  - destruct (process k s (f0, r0)) as [s1 e1] eqn:E1. destruct (processes k s1 t) as [s2 e2] eqn:E2. simpl.
+    inversion Hnd as [|? ? Hnot Hnd']; subst.
+    assert (HI1 : Inv k s1) by (eapply Inv_process; eassumption).
+    pose proof (IH s1 x Hk HI1 Hnd') as IH1. rewrite E2 in IH1. simpl in IH1.
+    assert (Hfr : forall fr, In fr t -> snd (process k s1 fr) = snd (process k s fr)).
+    { intros [f r] Hin. eapply process_frame; try eassumption.
+      intro; subst. apply Hnot. apply in_map_iff. exists (f0, r). split; [reflexivity | exact Hin]. }
+    rewrite in_app_iff, IH1. split.
+    + intros [H|(fr & Hin & H)].
+      * exists (f0, r0). split; [left; reflexivity | rewrite E1; exact H].
+      * exists fr. split; [right; exact Hin | rewrite <- Hfr by exact Hin; exact H].
+    + intros (fr & [<-|Hin] & H).
+      * left. rewrite E1 in H. exact H.
+      * right. exists fr. split; [exact Hin | rewrite Hfr by exact Hin; exact H].
+Qed.
+Transparent process.
+
+
+Definition stale (k : kind) (s : state) (o f : nat) : bool :=
+  match k, fds s o with
+  | KPoll, Some f' => negb (Nat.eqb f' f)
+  | KPoll, None => true
+  | _, _ => false
+  end.
+
+Definition hangs (k : kind) (r : revents) : bool :=
+  (r_hup r || r_err r || (is_poll k && r_nval r)) && negb (r_in r).
+
+Lemma process_read : forall k s f r o c,
+  In (ERead o c) (snd (process k s (f, r))) <->
+  pmap s f = Some o /\ stale k s o f = false /\ r_in r = true /\ c = target s o.
+Proof.
+  intros k s f r o c. unfold process. destruct (pmap s f) as [o'|]; [|simpl; split; [intros [] | intros [H _]; discriminate]].
+  change (match k with KPoll => match fds s o' with Some f' => negb (Nat.eqb f' f) | None => true end | _ => false end) with (stale k s o' f).
+  change ((r_hup r || r_err r || is_poll k && r_nval r) && negb (r_in r)) with (hangs k r).
+  destruct (stale k s o' f) eqn:Es.
+  - destruct (mem o' (rd s) || mem o' (wr s)); simpl.
+    + split; [intros [H|[]]; discriminate | intros (H1 & H2 & _); inversion H1; subst; congruence].
+    + split; [intros [] | intros (H1 & H2 & _); inversion H1; subst; congruence].
+  - destruct (hangs k r) eqn:Eh; simpl.
+    + split; [intros [H|[]]; discriminate|]. intros (H1 & _ & H3 & _). unfold hangs in Eh. rewrite H3 in Eh. simpl in Eh. rewrite andb_false_r in Eh. discriminate.
+    + rewrite in_app_iff. split.
+      * intros [H|H]; [destruct (r_in r) eqn:Ei | destruct (r_out r)]; simpl in H; try contradiction; destruct H as [H|[]]; inversion H; subst. auto.
+      * intros (H1 & _ & H3 & ->). inversion H1; subst. left. rewrite H3. left. reflexivity.
+Qed.
+
+Lemma process_write : forall k s f r o c,
+  In (EWrite o c) (snd (process k s (f, r))) <->
+  pmap s f = Some o /\ stale k s o f = false /\ hangs k r = false /\ r_out r = true /\ c = target s o.
+Proof.
+  intros k s f r o c. unfold process. destruct (pmap s f) as [o'|]; [|simpl; split; [intros [] | intros [H _]; discriminate]].
+  change (match k with KPoll => match fds s o' with Some f' => negb (Nat.eqb f' f) | None => true end | _ => false end) with (stale k s o' f).
+  change ((r_hup r || r_err r || is_poll k && r_nval r) && negb (r_in r)) with (hangs k r).
+  destruct (stale k s o' f) eqn:Es.
+  - destruct (mem o' (rd s) || mem o' (wr s)); simpl.
+    + split; [intros [H|[]]; discriminate | intros (H1 & H2 & _); inversion H1; subst; congruence].
+    + split; [intros [] | intros (H1 & H2 & _); inversion H1; subst; congruence].
+  - destruct (hangs k r) eqn:Eh; simpl.
+    + split; [intros [H|[]]; discriminate|]. intros (_ & _ & H3 & _). discriminate.
+    + rewrite in_app_iff. split.
+      * intros [H|H]; [destruct (r_in r) | destruct (r_out r) eqn:Eo]; simpl in H; try contradiction; destruct H as [H|[]]; inversion H; subst. auto.
+      * intros (H1 & _ & _ & H3 & ->). inversion H1; subst. right. rewrite H3. left. reflexivity.
+Qed.
+
+Lemma process_disc : forall k s f r o c,
+  In (EDisc o c) (snd (process k s (f, r))) ->
+  pmap s f = Some o /\ c = target s o /\
+  ((stale k s o f = true /\ registered s o) \/ (stale k s o f = false /\ hangs k r = true)).
+Proof.
+  intros k s f r o c. unfold process. destruct (pmap s f) as [o'|]; [|simpl; intros []].
+  change (match k with KPoll => match fds s o' with Some f' => negb (Nat.eqb f' f) | None => true end | _ => false end) with (stale k s o' f).
+  change ((r_hup r || r_err r || is_poll k && r_nval r) && negb (r_in r)) with (hangs k r).
+  destruct (stale k s o' f) eqn:Es.
+  - destruct (mem o' (rd s) || mem o' (wr s)) eqn:Em; simpl; intros H; [|contradiction].
+    destruct H as [H|[]]. inversion H; subst. repeat split. left. split; [exact Es|]. apply registered_mask. exact Em.
+  - destruct (hangs k r) eqn:Eh; simpl.
+    + intros [H|[]]. inversion H; subst. repeat split. right. auto.
+    + rewrite in_app_iff. intros [H|H]; [destruct (r_in r) | destruct (r_out r)]; simpl in H; try contradiction; destruct H as [H|[]]; discriminate.
+Qed.
+
+(* a reported number whose _map object passes the staleness test is that object's current number *)
+Lemma reported_open : forall k s f o m, k <> KSelect -> Inv k s ->
+  pmap s f = Some o -> kreg s f = Some m -> stale k s o f = false -> fds s o = Some f.
+Proof.
+  intros k s f o m Hk (HW & HM & HE) Hp Hkr Hs. destruct k; [congruence | |].
+  - unfold stale in Hs. destruct (fds s o) as [f'|]; [|discriminate].
+    apply negb_false_iff in Hs. apply Nat.eqb_eq in Hs. subst. reflexivity.
+  - destruct (HE eq_refl f m Hkr) as (o' & Hp' & Hf). congruence.
+Qed.
+
+Lemma stale_closed : forall k s f o, k <> KSelect -> Inv k s -> pmap s f = Some o -> stale k s o f = true -> fds s o = None.
+Proof.
+  intros k s f o Hk (HW & HM & _) Hp Hs. destruct (HM Hk) as [Mb _ _].
+  unfold stale in Hs. destruct k; try discriminate. destruct (fds s o) as [f'|] eqn:Ef; [|reflexivity].
+  apply (w_born _ HW) in Ef. apply Mb in Hp. rewrite Hp in Ef. inversion Ef; subst. rewrite Nat.eqb_refl in Hs. discriminate.
+Qed.
+
+Lemma tick_poll : forall k s st order, k <> KSelect -> tick k s st order = processes k s (scan s st order).
+Proof. intros k s st order Hk. destruct k; [congruence | reflexivity | reflexivity]. Qed.
+
+Theorem poll_read : forall k s st order o c, k <> KSelect -> Inv k s -> order_ok s order ->
+  (In (ERead o c) (snd (tick k s st order)) <->
+   In o (rd s) /\ (exists f, fds s o = Some f /\ pin (st f) = true) /\ c = target s o).
+Proof.
+  intros k s st order o c Hk HI [Hnd Hcov]. rewrite tick_poll by exact Hk.
+  rewrite processes_events; [| exact Hk | exact HI | apply scan_nodup; exact Hnd].
+  pose proof HI as (HW & HM & HE). destruct (HM Hk) as [Mb Mm Me].
+  split.
+  - intros ([f r] & Hin & Hev). apply process_read in Hev. destruct Hev as (Hp & Hs & Hri & ->).
+    apply scan_in_order in Hin. simpl in Hin. destruct Hin as [_ Hin].
+    destruct (scan1_spec _ _ _ _ Hin) as (_ & mi & mo & Hkr & [(_ & _ & Hx & _)|(Hh & Hr)]); simpl in *; [congruence|].
+    subst r. simpl in Hri. apply andb_true_iff in Hri. destruct Hri as [Hmi Hpin].
+    pose proof (reported_open _ _ _ _ _ Hk HI Hp Hkr Hs) as Hfd.
+    destruct (Me f o _ Hp Hfd Hkr) as [Hm _]. unfold mask in Hm. injection Hm as E1 E2. rewrite E1 in Hmi.
+    split; [apply mem_In; exact Hmi|]. split; [exists f; auto | reflexivity].
+  - intros (Hi & (f & Hfd & Hpin) & ->).
+    destruct (Mm o f Hfd (or_introl Hi)) as [Hp Hkr].
+    assert (Hh : holder s f = Some o) by (apply (w_inj _ HW); exact Hfd).
+    set (r := {| r_in := mem o (rd s) && pin (st f); r_out := mem o (wr s) && pout (st f);
+                 r_hup := phup (st f); r_err := perr (st f); r_nval := false |}).
+    assert (Hri : r_in r = true) by (simpl; apply andb_true_iff; split; [apply mem_In; exact Hi | exact Hpin]).
+    exists (f, r). split.
+    + unfold scan. apply in_flat_map. exists f. split; [apply Hcov; congruence|].
+      unfold scan1. rewrite Hkr. unfold mask. rewrite Hh. fold r. rewrite Hri. simpl. left. reflexivity.
+    + apply process_read. repeat split; try assumption.
+      unfold stale. rewrite Hfd. destruct k; try reflexivity. rewrite Nat.eqb_refl. reflexivity.
+Qed.
+
+(* hang-up / error reported for o's number while no readable data is reported for o *)
+Definition hang_only (s : state) (st : nat -> status) (o f : nat) : bool :=
+  (phup (st f) || perr (st f)) && negb (mem o (rd s) && pin (st f)).
+
+Theorem poll_write : forall k s st order o c, k <> KSelect -> Inv k s -> order_ok s order ->
+  (In (EWrite o c) (snd (tick k s st order)) <->
+   In o (wr s) /\ (exists f, fds s o = Some f /\ pout (st f) = true /\ hang_only s st o f = false) /\ c = target s o).
+Proof.
+  intros k s st order o c Hk HI [Hnd Hcov]. rewrite tick_poll by exact Hk.
+  rewrite processes_events; [| exact Hk | exact HI | apply scan_nodup; exact Hnd].
+  pose proof HI as (HW & HM & HE). destruct (HM Hk) as [Mb Mm Me].
+  split.
+  - intros ([f r] & Hin & Hev). apply process_write in Hev. destruct Hev as (Hp & Hs & Hh & Hro & ->).
+    apply scan_in_order in Hin. simpl in Hin. destruct Hin as [_ Hin].
+    destruct (scan1_spec _ _ _ _ Hin) as (_ & mi & mo & Hkr & [(_ & _ & _ & Hx)|(Hho & Hr)]); simpl in *; [congruence|].
+    subst r. simpl in Hro. apply andb_true_iff in Hro. destruct Hro as [Hmo Hpout].
+    pose proof (reported_open _ _ _ _ _ Hk HI Hp Hkr Hs) as Hfd.
+    destruct (Me f o _ Hp Hfd Hkr) as [Hm _]. unfold mask in Hm. injection Hm as E1 E2. rewrite E2 in Hmo.
+    split; [apply mem_In; exact Hmo|]. split; [|reflexivity]. exists f. repeat split; try assumption.
+    unfold hangs in Hh. simpl in Hh. rewrite andb_false_r, orb_false_r in Hh. unfold hang_only. rewrite <- E1. exact Hh.
+  - intros (Hi & (f & Hfd & Hpout & Hho) & ->).
+    destruct (Mm o f Hfd (or_intror Hi)) as [Hp Hkr].
+    assert (Hh : holder s f = Some o) by (apply (w_inj _ HW); exact Hfd).
+    set (r := {| r_in := mem o (rd s) && pin (st f); r_out := mem o (wr s) && pout (st f);
+                 r_hup := phup (st f); r_err := perr (st f); r_nval := false |}).
+    assert (Hro : r_out r = true) by (simpl; apply andb_true_iff; split; [apply mem_In; exact Hi | exact Hpout]).
+    exists (f, r). split.
+    + unfold scan. apply in_flat_map. exists f. split; [apply Hcov; congruence|].
+      unfold scan1. rewrite Hkr. unfold mask. rewrite Hh. fold r. rewrite Hro. rewrite orb_true_r. simpl. left. reflexivity.
+    + apply process_write. repeat split; try assumption.
+      * unfold stale. rewrite Hfd. destruct k; try reflexivity. rewrite Nat.eqb_refl. reflexivity.
+      * unfold hangs. simpl. rewrite andb_false_r, orb_false_r. exact Hho.
+Qed.
+
+Theorem poll_disc : forall k s st order o c, k <> KSelect -> Inv k s -> order_ok s order ->
+  In (EDisc o c) (snd (tick k s st order)) ->
+  registered s o /\ c = target s o /\
+  (fds s o = None \/ exists f, fds s o = Some f /\ hang_only s st o f = true).
+Proof.
+  intros k s st order o c Hk HI [Hnd Hcov]. rewrite tick_poll by exact Hk.
+  rewrite processes_events; [| exact Hk | exact HI | apply scan_nodup; exact Hnd].
+  pose proof HI as (HW & HM & HE). destruct (HM Hk) as [Mb Mm Me].
+  intros ([f r] & Hin & Hev). apply process_disc in Hev. destruct Hev as (Hp & -> & Hc).
+  apply scan_in_order in Hin. simpl in Hin. destruct Hin as [_ Hin].
+  destruct Hc as [[Hs Hr]|[Hs Hh]].
+  - split; [exact Hr|]. split; [reflexivity|]. left. eapply stale_closed; eassumption.
+  - destruct (scan1_spec _ _ _ _ Hin) as (_ & mi & mo & Hkr & Hcase); simpl in *.
+    pose proof (reported_open _ _ _ _ _ Hk HI Hp Hkr Hs) as Hfd.
+    destruct (Me f o _ Hp Hfd Hkr) as [Hm Hr]. unfold mask in Hm. injection Hm as E1 E2.
+    split; [exact Hr|]. split; [reflexivity|]. right. exists f. split; [exact Hfd|].
+    destruct Hcase as [(Hho & _)|(_ & Hrr)].
+    + apply (w_inj _ HW) in Hfd. congruence.
+    + subst r. unfold hangs in Hh. simpl in Hh. rewrite andb_false_r, orb_false_r in Hh. unfold hang_only. rewrite <- E1. exact Hh.
+Qed.
+
+(* ================================================================== registrations follow the set model *)
+Opaque process.
+Lemma processes_sub : forall k l s s' e, processes k s l = (s', e) ->
+  (forall o, In o (rd s') -> In o (rd s)) /\ (forall o, In o (wr s') -> In o (wr s)) /\
+  fds s' = fds s /\ born s' = born s.
+Proof.
+  induction l as [|[f r] t IH]; intros s s' e H.
+  - simpl in H. inversion H; subst. auto.
+  - simpl in H. destruct (process k s (f, r)) as [s1 e1] eqn:E1. destruct (processes k s1 t) as [s2 e2] eqn:E2.
+    inversion H; subst. destruct (IH _ _ _ E2) as (A & B & C & D).
+    assert (Hs : (forall o, In o (rd s1) -> In o (rd s)) /\ (forall o, In o (wr s1) -> In o (wr s)) /\ fds s1 = fds s /\ born s1 = born s).
+    { destruct (process_cases _ _ _ _ _ _ E1) as [[-> _]|[(o0 & _ & _ & -> & _)|(o0 & _ & -> & _)]]; simpl; auto.
+      repeat split; try reflexivity; intros o; apply In_remove1. }
+    destruct Hs as (A1 & B1 & C1 & D1). split; [|split; [|split]].
+    + intros o Hi. apply A1. apply A. exact Hi.
+    + intros o Hi. apply B1. apply B. exact Hi.
+    + congruence.
+    + congruence.
+Qed.
+Transparent process.
+
+
+Lemma tick_sub : forall k s st order s' e, tick k s st order = (s', e) ->
+  (forall o, In o (rd s') -> In o (rd s)) /\ (forall o, In o (wr s') -> In o (wr s)) /\
+  fds s' = fds s /\ born s' = born s.
+Proof.
+  intros k s st order s' e H. destruct k; simpl in H; try (eapply processes_sub; exact H).
+  unfold select_tick in H. destruct (existsb (closed s) (rd s) || existsb (closed s) (wr s)); inversion H; subst; simpl; auto.
+  repeat split; try reflexivity; intros o Hi; apply filter_In in Hi; tauto.
+Qed.
+
+(* the lists after a step, as the set model says *)
+Theorem step_lists : forall k s x s' e, step k s x = Ok s' e ->
+  match x with
+  | AddR c o => rd s' = rd s ++ [o] /\ wr s' = wr s
+  | AddW c o => rd s' = rd s /\ wr s' = wr s ++ [o]
+  | RemR o => rd s' = remove1 o (rd s) /\ wr s' = wr s
+  | RemW o => rd s' = rd s /\ wr s' = remove1 o (wr s)
+  | Discard o => rd s' = remove1 o (rd s) /\ wr s' = remove1 o (wr s)
+  | Open _ _ | Close _ => rd s' = rd s /\ wr s' = wr s
+  | Tick _ _ => (forall o, In o (rd s') -> In o (rd s)) /\ (forall o, In o (wr s') -> In o (wr s))
+  end.
+Proof.
+  intros k s x s' e H. destruct x; simpl in H.
+  - destruct (born s o); [discriminate|]. destruct (holder s f); [discriminate|]. inversion H; subst. simpl. auto.
+  - destruct (fds s o); [|discriminate]. inversion H; subst. simpl. auto.
+  - destruct (born s o); [|discriminate]. apply lift_ok in H. destruct H as [H _].
+    destruct (api_shape _ _ _ _ H) as (_ & _ & _ & A & B & _). rewrite A, B. simpl. auto.
+  - destruct (born s o); [|discriminate]. apply lift_ok in H. destruct H as [H _].
+    destruct (api_shape _ _ _ _ H) as (_ & _ & _ & A & B & _). rewrite A, B. simpl. auto.
+  - destruct (born s o); [|discriminate]. apply lift_ok in H. destruct H as [H _].
+    destruct (api_shape _ _ _ _ H) as (_ & _ & _ & A & B & _). rewrite A, B. unfold b_remR.
+    destruct (rd_drop_target (set_rd s (remove1 o (rd s))) o) as (H1 & H2 & _). rewrite H1, H2. simpl. auto.
+  - destruct (born s o); [|discriminate]. apply lift_ok in H. destruct H as [H _].
+    destruct (api_shape _ _ _ _ H) as (_ & _ & _ & A & B & _). rewrite A, B. unfold b_remW.
+    destruct (rd_drop_target (set_wr s (remove1 o (wr s))) o) as (H1 & H2 & _). rewrite H1, H2. simpl. auto.
+  - destruct (born s o); [|discriminate]. apply lift_ok in H. destruct H as [H _].
+    destruct (api_shape _ _ _ _ H) as (_ & _ & _ & A & B & _). rewrite A, B. simpl. auto.
+  - destruct (tick k s st order) as [s1 e1] eqn:Et. inversion H; subst.
+    destruct (tick_sub _ _ _ _ _ _ Et) as (A & B & _). auto.
+Qed.
+
+(* the target of a freshly registered descriptor is the registering component's channel, and it is kept
+   as long as the descriptor stays registered in some role *)
+Lemma api_tg_reg : forall k s o s', api k s o = Some s' -> registered s o -> tg s' = tg s.
+Proof.
+  intros k s o s' H Hr. destruct k; simpl in H.
+  - inversion H; reflexivity.
+  - destruct (update_reg_shape _ _ _ _ H) as (_ & _ & _ & _ & _ & A & _). apply A. exact Hr.
+  - destruct (update_reg_shape _ _ _ _ H) as (_ & _ & _ & _ & _ & A & _). apply A. exact Hr.
+Qed.
+
+Theorem step_target : forall k s x s' e, step k s x = Ok s' e ->
+  match x with
+  | AddR c o | AddW c o => tg s' o = Some c /\ forall o', o' <> o -> tg s' o' = tg s o'
+  | RemR o => (In o (wr s) -> tg s' o = tg s o) /\ forall o', o' <> o -> tg s' o' = tg s o'
+  | RemW o => (In o (rd s) -> tg s' o = tg s o) /\ forall o', o' <> o -> tg s' o' = tg s o'
+  | Discard o => forall o', o' <> o -> tg s' o' = tg s o'
+  | Open _ _ | Close _ => tg s' = tg s
+  | Tick _ _ => True
+  end.
+Proof.
+  intros k s x s' e H. destruct x; simpl in H; try exact I.
+  - destruct (born s o); [discriminate|]. destruct (holder s f); [discriminate|]. inversion H; subst. reflexivity.
+  - destruct (fds s o); [|discriminate]. inversion H; subst. reflexivity.
+  - destruct (born s o); [|discriminate]. apply lift_ok in H. destruct H as [H _]. split.
+    + rewrite (api_tg_reg _ _ _ _ H); [simpl; apply upd_same | left; simpl; apply in_app_iff; right; left; reflexivity].
+    + intros o' Hn. destruct (api_shape _ _ _ _ H) as (_ & _ & _ & _ & _ & A).
+      destruct (A o') as [E|[E _]]; [|contradiction]. rewrite E. simpl. apply upd_other. exact Hn.
+  - destruct (born s o); [|discriminate]. apply lift_ok in H. destruct H as [H _]. split.
+    + rewrite (api_tg_reg _ _ _ _ H); [simpl; apply upd_same | right; simpl; apply in_app_iff; right; left; reflexivity].
+    + intros o' Hn. destruct (api_shape _ _ _ _ H) as (_ & _ & _ & _ & _ & A).
+      destruct (A o') as [E|[E _]]; [|contradiction]. rewrite E. simpl. apply upd_other. exact Hn.
+  - destruct (born s o); [|discriminate]. apply lift_ok in H. destruct H as [H _].
+    destruct (rd_drop_target (set_rd s (remove1 o (rd s))) o) as (H1 & H2 & _ & _ & _ & _ & _ & H8). split.
+    + intros Hw. rewrite (api_tg_reg _ _ _ _ H).
+      * unfold b_remR, drop_target. simpl. apply mem_In in Hw. rewrite Hw, orb_true_r. reflexivity.
+      * right. unfold b_remR. rewrite H2. exact Hw.
+    + intros o' Hn. destruct (api_shape _ _ _ _ H) as (_ & _ & _ & _ & _ & A).
+      destruct (A o') as [E|[E _]]; [|contradiction]. rewrite E. unfold b_remR. rewrite H8 by exact Hn. reflexivity.
+  - destruct (born s o); [|discriminate]. apply lift_ok in H. destruct H as [H _].
+    destruct (rd_drop_target (set_wr s (remove1 o (wr s))) o) as (H1 & H2 & _ & _ & _ & _ & _ & H8). split.
+    + intros Hw. rewrite (api_tg_reg _ _ _ _ H).
+      * unfold b_remW, drop_target. simpl. apply mem_In in Hw. rewrite Hw. reflexivity.
+      * left. unfold b_remW. rewrite H1. exact Hw.
+    + intros o' Hn. destruct (api_shape _ _ _ _ H) as (_ & _ & _ & _ & _ & A).
+      destruct (A o') as [E|[E _]]; [|contradiction]. rewrite E. unfold b_remW. rewrite H8 by exact Hn. reflexivity.
+  - destruct (born s o); [|discriminate]. apply lift_ok in H. destruct H as [H _].
+    intros o' Hn. destruct (api_shape _ _ _ _ H) as (_ & _ & _ & _ & _ & A).
+    destruct (A o') as [E|[E _]]; [|contradiction]. rewrite E. simpl. apply upd_other. exact Hn.
+Qed.
+
+(* ================================================================== no ghost events *)
+Definition ev_obj (e : ev) : nat := match e with ERead o _ | EWrite o _ | EDisc o _ => o end.
+Definition is_rw (e : ev) : Prop := match e with EDisc _ _ => False | _ => True end.
+Definition adds (o : nat) (x : op) : Prop := match x with AddR _ o' | AddW _ o' => o' = o | _ => False end.
+
+Fixpoint run_pre (k : kind) (s : state) (h : list op) : Prop :=
+  match h with
+  | [] => True
+  | x :: t => pre s x /\ match step k s x with Ok s' _ => run_pre k s' t | _ => True end
+  end.
+
+Lemma tick_event_registered : forall k s st order e, Inv k s -> order_ok s order ->
+  In e (snd (tick k s st order)) -> registered s (ev_obj e) /\ (is_rw e -> fds s (ev_obj e) <> None).
+Proof.
+  intros k s st order e HI Hord Hin.
+  assert (Hk : k = KSelect \/ k <> KSelect) by (destruct k; [left; reflexivity | right; discriminate | right; discriminate]).
+  destruct Hk as [->|Hk].
+  - simpl in Hin. destruct e as [o c|o c|o c]; simpl.
+    + apply select_read in Hin. destruct Hin as (_ & Hi & (f & Hf & _) & _). split; [left; exact Hi | intros _; congruence].
+    + apply select_write in Hin. destruct Hin as (_ & Hi & (f & Hf & _) & _). split; [right; exact Hi | intros _; congruence].
+    + exfalso. eapply select_no_disc. exact Hin.
+  - destruct e as [o c|o c|o c]; simpl.
+    + apply (poll_read k s st order o c Hk HI Hord) in Hin. destruct Hin as (Hi & (f & Hf & _) & _).
+      split; [left; exact Hi | intros _; congruence].
+    + apply (poll_write k s st order o c Hk HI Hord) in Hin. destruct Hin as (Hi & (f & Hf & _) & _).
+      split; [right; exact Hi | intros _; congruence].
+    + apply (poll_disc k s st order o c Hk HI Hord) in Hin. destruct Hin as (Hr & _). split; [exact Hr | intros []].
+Qed.
+
+Lemma step_unreg : forall k s x s' e o, step k s x = Ok s' e -> ~ adds o x -> ~ registered s o -> ~ registered s' o.
+Proof.
+  intros k s x s' e o H Ha Hn Hr. pose proof (step_lists _ _ _ _ _ H) as L.
+  destruct x; simpl in Ha; unfold registered in *.
+  - destruct L as [A B]. rewrite A, B in Hr. contradiction.
+  - destruct L as [A B]. rewrite A, B in Hr. contradiction.
+  - destruct L as [A B]. rewrite A, B in Hr. rewrite in_app_iff in Hr. simpl in Hr. intuition congruence.
+  - destruct L as [A B]. rewrite A, B in Hr. rewrite in_app_iff in Hr. simpl in Hr. intuition congruence.
+  - destruct L as [A B]. rewrite A, B in Hr. destruct Hr as [Hr|Hr]; [apply In_remove1 in Hr|]; tauto.
+  - destruct L as [A B]. rewrite A, B in Hr. destruct Hr as [Hr|Hr]; [|apply In_remove1 in Hr]; tauto.
+  - destruct L as [A B]. rewrite A, B in Hr. destruct Hr as [Hr|Hr]; apply In_remove1 in Hr; tauto.
+  - destruct L as [A B]. destruct Hr as [Hr|Hr]; [apply A in Hr | apply B in Hr]; tauto.
+Qed.
+
+Lemma run_cons_trace : forall k s x t tr oc sf, run k s (x :: t) = (tr, oc, sf) ->
+  match step k s x with
+  | Ok s1 e1 => exists tr1, run k s1 t = (tr1, oc, sf) /\
+                 forall p, In p tr -> (exists st order, x = Tick st order /\ p = (s1, e1)) \/ In p tr1
+  | _ => tr = []
+  end.
+Proof.
+  intros k s x t tr oc sf H. simpl in H. destruct (step k s x) as [s1 e1| |].
+  - destruct (run k s1 t) as [[tr1 oc1] sf1]. inversion H; subst. exists tr1. split; [reflexivity|].
+    intros p Hp. destruct x; auto. destruct Hp as [<-|Hp]; [left; eauto | right; exact Hp].
+  - inversion H; reflexivity.
+  - inversion H; reflexivity.
+Qed.
+
+Theorem no_ghost_unregistered : forall k h s tr oc sf o,
+  reach k s -> run_pre k s h -> run k s h = (tr, oc, sf) ->
+  ~ registered s o -> (forall x, In x h -> ~ adds o x) ->
+  forall s' evs e, In (s', evs) tr -> In e evs -> ev_obj e <> o.
+Proof.
+  induction h as [|x t IH]; intros s tr oc sf o Hre Hpre Hrun Hn Hadds s' evs e Hin He.
+  - simpl in Hrun. inversion Hrun; subst. destruct Hin.
+  - pose proof (run_cons_trace _ _ _ _ _ _ _ Hrun) as Hc. simpl in Hpre. destruct Hpre as [Hp Hpre].
+    destruct (step k s x) as [s1 e1| |] eqn:Es; try (subst; destruct Hin).
+    destruct Hc as (tr1 & Hrun1 & Htr).
+    assert (Hre1 : reach k s1) by (eapply reach_step; eassumption).
+    assert (Hn1 : ~ registered s1 o) by (eapply step_unreg; [exact Es | apply Hadds; left; reflexivity | exact Hn]).
+    destruct (Htr _ Hin) as [(st & order & -> & Heq)|Hin1].
+    + inversion Heq; subst. simpl in Es. destruct (tick k s st order) as [s2 e2] eqn:Et. inversion Es; subst.
+      assert (Hev : In e (snd (tick k s st order))) by (rewrite Et; exact He).
+      destruct (tick_event_registered _ _ _ _ _ (reach_Inv _ _ Hre) Hp Hev) as [Hr _].
+      intro; subst. contradiction.
+    + eapply IH; try eassumption. intros y Hy. apply Hadds. right. exact Hy.
+Qed.
+
+Lemma step_fds : forall k s x s' e, step k s x = Ok s' e ->
+  forall o, fds s o = None -> born s o <> None -> fds s' o = None /\ born s' o <> None.
+Proof.
+  intros k s x s' e H o Hf Hb.
+  assert (Hapi : forall s1 o1, fds s1 = fds s -> born s1 = born s -> lift (api k s1 o1) = Ok s' e -> fds s' o = None /\ born s' o <> None).
+  { intros s1 o1 E1 E2 Hl. apply lift_ok in Hl. destruct Hl as [Hl _].
+    destruct (api_shape _ _ _ _ Hl) as (A & _ & B & _). rewrite A, B, E1, E2. auto. }
+  destruct x; simpl in H.
+  - destruct (born s o0) eqn:Eb; [discriminate|]. destruct (holder s f); [discriminate|]. inversion H; subst. simpl.
+    unfold upd. destruct (Nat.eqb_spec o o0); [subst; congruence | auto].
+  - destruct (fds s o0); [|discriminate]. inversion H; subst. simpl. unfold upd. destruct (Nat.eqb o o0); auto.
+  - destruct (born s o0); [|discriminate]. eapply Hapi; [| |exact H]; reflexivity.
+  - destruct (born s o0); [|discriminate]. eapply Hapi; [| |exact H]; reflexivity.
+  - destruct (born s o0); [|discriminate]. eapply Hapi; [| |exact H];
+      destruct (rd_drop_target (set_rd s (remove1 o0 (rd s))) o0) as (_ & _ & A & _ & B & _); unfold b_remR; [rewrite A | rewrite B]; reflexivity.
+  - destruct (born s o0); [|discriminate]. eapply Hapi; [| |exact H];
+      destruct (rd_drop_target (set_wr s (remove1 o0 (wr s))) o0) as (_ & _ & A & _ & B & _); unfold b_remW; [rewrite A | rewrite B]; reflexivity.
+  - destruct (born s o0); [|discriminate]. eapply Hapi; [| |exact H]; reflexivity.
+  - destruct (tick k s st order) as [s1 e1] eqn:Et. inversion H; subst.
+    destruct (tick_sub _ _ _ _ _ _ Et) as (_ & _ & A & B). rewrite A, B. auto.
+Qed.
+
+(* a closed descriptor never produces a readiness event again, whatever is done afterwards
+   (including opening a new descriptor with its number, registered or not) *)
+Theorem no_ghost_closed : forall k h s tr oc sf o,
+  reach k s -> run_pre k s h -> run k s h = (tr, oc, sf) ->
+  fds s o = None -> born s o <> None ->
+  forall s' evs e, In (s', evs) tr -> In e evs -> is_rw e -> ev_obj e <> o.
+Proof.
+  induction h as [|x t IH]; intros s tr oc sf o Hre Hpre Hrun Hf Hb s' evs e Hin He Hrw.
+  - simpl in Hrun. inversion Hrun; subst. destruct Hin.
+  - pose proof (run_cons_trace _ _ _ _ _ _ _ Hrun) as Hc. simpl in Hpre. destruct Hpre as [Hp Hpre].
+    destruct (step k s x) as [s1 e1| |] eqn:Es; try (subst; destruct Hin).
+    destruct Hc as (tr1 & Hrun1 & Htr).
+    assert (Hre1 : reach k s1) by (eapply reach_step; eassumption).
+    destruct (step_fds _ _ _ _ _ Es o Hf Hb) as [Hf1 Hb1].
+    destruct (Htr _ Hin) as [(st & order & -> & Heq)|Hin1].
+    + inversion Heq; subst. simpl in Es. destruct (tick k s st order) as [s2 e2] eqn:Et. inversion Es; subst.
+      assert (Hev : In e (snd (tick k s st order))) by (rewrite Et; exact He).
+      destruct (tick_event_registered _ _ _ _ _ (reach_Inv _ _ Hre) Hp Hev) as [_ Hopen].
+      intro; subst. apply (Hopen Hrw). exact Hf.
+    + eapply IH; eassumption.
+Qed.
+
+Lemma discard_unregisters : forall k s o s' e, reach k s -> step k s (Discard o) = Ok s' e -> ~ registered s' o.
+Proof.
+  intros k s o s' e Hre H. destruct (step_lists _ _ _ _ _ H) as [A B].
+  destruct (reach_Inv _ _ Hre) as ([_ _ _ N1 N2 _] & _).
+  unfold registered. rewrite A, B. intros [Hi|Hi]; [apply (NoDup_remove1 o _ N1) in Hi | apply (NoDup_remove1 o _ N2) in Hi]; exact Hi.
+Qed.
+
+Lemma close_closes : forall k s o s' e, reach k s -> step k s (Close o) = Ok s' e -> fds s' o = None /\ born s' o <> None.
+Proof.
+  intros k s o s' e Hre H. simpl in H. destruct (fds s o) as [f|] eqn:Ef; [|discriminate]. inversion H; subst. simpl.
+  split; [apply upd_same|]. destruct (reach_Inv _ _ Hre) as (HW & _). rewrite (w_born _ HW _ _ Ef). discriminate.
+Qed.
+
+(* ================================================================== the three pollers agree *)
+Definition plain (x : status) : Prop := phup x = false /\ perr x = false /\ sr x = pin x /\ sw x = pout x.
+
+Lemma clean_open : forall s o, clean s -> registered s o -> fds s o <> None.
+Proof.
+  intros s o Hc Hr Hf. unfold clean in Hc. apply orb_false_iff in Hc. destruct Hc as [C1 C2].
+  assert (Hcl : closed s o = true) by (unfold closed; rewrite Hf; reflexivity).
+  destruct Hr as [Hr|Hr].
+  - assert (existsb (closed s) (rd s) = true) by (apply existsb_exists; eauto). congruence.
+  - assert (existsb (closed s) (wr s) = true) by (apply existsb_exists; eauto). congruence.
+Qed.
+
+Theorem agree_tick : forall k s1 s2 st order e,
+  k <> KSelect -> Inv KSelect s1 -> Inv k s2 -> order_ok s2 order ->
+  (forall o, In o (rd s1) <-> In o (rd s2)) -> (forall o, In o (wr s1) <-> In o (wr s2)) ->
+  (forall o, tg s1 o = tg s2 o) -> (forall o, fds s1 o = fds s2 o) ->
+  clean s1 -> (forall o f, registered s1 o -> fds s1 o = Some f -> plain (st f)) ->
+  (In e (snd (tick KSelect s1 st order)) <-> In e (snd (tick k s2 st order))).
+Proof.
+  intros k s1 s2 st order e Hk HI1 HI2 Hord Hrd Hwr Htg Hfd Hclean Hplain.
+  assert (Htarget : forall o, target s1 o = target s2 o) by (intros; unfold target; rewrite Htg; reflexivity).
+  assert (Hmem : forall o, mem o (rd s1) = mem o (rd s2)) by (intros; apply mem_ext; apply Hrd).
+  destruct e as [o c|o c|o c].
+  - simpl tick at 1. rewrite select_read, (poll_read k s2 st order o c Hk HI2 Hord). split.
+    + intros (_ & Hi & (f & Hf & Hs) & ->). destruct (Hplain o f (or_introl Hi) Hf) as (_ & _ & E & _).
+      split; [apply Hrd; exact Hi|]. split; [exists f; rewrite <- Hfd; split; [exact Hf | congruence] | apply Htarget].
+    + intros (Hi & (f & Hf & Hs) & ->). apply Hrd in Hi. rewrite <- Hfd in Hf.
+      destruct (Hplain o f (or_introl Hi) Hf) as (_ & _ & E & _).
+      split; [exact Hclean|]. split; [exact Hi|]. split; [exists f; split; [exact Hf | congruence] | symmetry; apply Htarget].
+  - simpl tick at 1. rewrite select_write, (poll_write k s2 st order o c Hk HI2 Hord). split.
+    + intros (_ & Hi & (f & Hf & Hs) & ->). destruct (Hplain o f (or_intror Hi) Hf) as (E1 & E2 & _ & E).
+      split; [apply Hwr; exact Hi|]. split; [|apply Htarget]. exists f. rewrite <- Hfd. split; [exact Hf|]. split; [congruence|].
+      unfold hang_only. rewrite E1, E2. reflexivity.
+    + intros (Hi & (f & Hf & Hs & _) & ->). apply Hwr in Hi. rewrite <- Hfd in Hf.
+      destruct (Hplain o f (or_intror Hi) Hf) as (_ & _ & _ & E).
+      split; [exact Hclean|]. split; [exact Hi|]. split; [exists f; split; [exact Hf | congruence] | symmetry; apply Htarget].
+  - split.
+    + intros H. exfalso. simpl in H. eapply select_no_disc. exact H.
+    + intros H. exfalso. apply (poll_disc k s2 st order o c Hk HI2 Hord) in H. destruct H as (Hr & _ & Hc).
+      assert (Hr1 : registered s1 o) by (destruct Hr as [Hr|Hr]; [left; apply Hrd | right; apply Hwr]; exact Hr).
+      destruct Hc as [Hc|(f & Hf & Hh)].
+      * apply (clean_open s1 o Hclean Hr1). rewrite Hfd. exact Hc.
+      * rewrite <- Hfd in Hf. destruct (Hplain o f Hr1 Hf) as (E1 & E2 & _). unfold hang_only in Hh. rewrite E1, E2 in Hh. discriminate.
+Qed.
+
+(* ================================================================== the mirror, for the Props file *)
+Theorem mirror : forall k s, k <> KSelect -> reach k s ->
+  (forall o f, fds s o = Some f -> registered s o -> kreg s f = Some (mem o (rd s), mem o (wr s)) /\ pmap s f = Some o) /\
+  (forall o f m, fds s o = Some f -> pmap s f = Some o -> kreg s f = Some m -> m = (mem o (rd s), mem o (wr s)) /\ registered s o) /\
+  (forall o f, fds s o = Some f -> ~ registered s o -> pmap s f = Some o -> kreg s f = None).
+Proof.
+  intros k s Hk Hre. destruct (reach_Inv _ _ Hre) as (HW & HM & _). destruct (HM Hk) as [Mb Mm Me]. split; [|split].
+  - intros o f Hf Hr. destruct (Mm o f Hf Hr) as [A B]. split; assumption.
+  - intros o f m Hf Hp Hkr. eapply Me; eassumption.
+  - intros o f Hf Hn Hp. destruct (kreg s f) as [m|] eqn:Ek; [|reflexivity].
+    exfalso. apply Hn. eapply Me; eassumption.
+Qed.
+
+Theorem mirror_epoll : forall s f m, reach KEPoll s -> kreg s f = Some m ->
+  exists o, fds s o = Some f /\ registered s o /\ m = (mem o (rd s), mem o (wr s)).
+Proof.
+  intros s f m Hre Hk. destruct (reach_Inv _ _ Hre) as (HW & HM & HE).
+  destruct (HE eq_refl f m Hk) as (o & Hp & Hf). destruct (HM ltac:(discriminate)) as [_ _ Me].
+  destruct (Me f o m Hp Hf Hk) as [A B]. exists o. auto.
 Qed.
